@@ -14,7 +14,13 @@ docstring says" is then parse.docstring's reading of the same documentation writ
 History stratum: the generated definitions form one batch parsed in one process, a few of them with a damaged docstring
 that the docstring parser rejects part-way (the caller reports it and carries on); what is parsed for every definition
 in the batch is compared with what is parsed for the same source alone, in a worker forked from a process that has
-only imported doctrans (what Python sees of a definition does not depend on what was compiled before it)."""
+only imported doctrans (what Python sees of a definition does not depend on what was compiled before it).  Part of the
+batch are groups of definitions (functions, methods, classes) whose docstring TEXT is byte-identical while their
+signatures differ (a stub and its implementation, overloads, an old and a new version), next to each other or a few
+definitions apart.
+Class-attribute stratum (kind "classattrs"): classes whose body mixes annotated attributes and plain assignments, partly
+documented, with or without an __init__: what parse.class_ reports (alone and merged with __init__) is compared with
+vars(cls) / __annotations__ of the executed class: every attribute once, in Python's order, with its value and annotation."""
 import ast
 import collections
 import copy
@@ -210,8 +216,98 @@ def _doc_reading(ds):
     return impl().parse.docstring(canon_field_order(ds).replace(":cvar", ":param")) if ds is not None else None
 
 
+def _py_attrs(cls):
+    """Python's own view of the attributes of an executed class: [(name, value)] of vars(cls) in its order (no dunder
+    names, no functions / descriptors / nested classes) and the names of __annotations__ in its order"""
+    import types
+    vs = [(n, v) for n, v in vars(cls).items() if not (n.startswith("__") and n.endswith("__"))
+          and not isinstance(v, (types.FunctionType, classmethod, staticmethod, property, type))]
+    return vs, list(vars(cls).get("__annotations__", {}))
+
+
+def check_class_attrs(tree, cls, ir_params, doc_params, init_names=None):
+    """the property for the attributes of a class, judged against vars(cls) / __annotations__.  ir_params: what was parsed;
+    doc_params: what the class docstring says; init_names: names of the parameters of the merged __init__ (None: not merged;
+    for those names value, type and prose are judged by check_params)."""
+    vs, anns = _py_attrs(cls)
+    valued = [n for n, _ in vs]
+    ann_only = [n for n in anns if n not in set(valued)]
+    doc_params = doc_params or {}
+    for n in valued + ann_only:
+        if n not in ir_params:
+            return False, "attribute %s is missing from the parsed class" % n
+    # order: Python's.  (When the class docstring names attributes that are NOT the leading attributes of the body in
+    # body order, parse.class_ lists the named ones first - reported as a finding; the order of the others is still judged.)
+    for label, order in (("vars(cls)", valued), ("__annotations__ (attributes without a value)", ann_only)):
+        got = [n for n in ir_params if n in set(order)]
+        named = [n for n in doc_params if n in set(order)]
+        if named == order[:len(named)]:
+            if got != order:
+                return False, "order: attributes appear as %r, %s has %r" % (got, label, order)
+        else:
+            sub, want = [n for n in got if n not in doc_params], [n for n in order if n not in doc_params]
+            if sub != want:
+                return False, "order: attributes the docstring does not name appear as %r, %s has %r" % (sub, label, want)
+    ann_src = {}
+    for e in tree.body:
+        if isinstance(e, ast.AnnAssign) and isinstance(e.target, ast.Name):
+            ann_src[e.target.id] = ast.unparse(e.annotation)
+    for n in valued + ann_only:
+        if init_names is not None and n in init_names:
+            continue
+        rp, dp = ir_params[n], doc_params.get(n) or {}
+        if dp.get("doc"):
+            if _norm_ws(rp.get("doc")) != _norm_ws(dp["doc"]):
+                return False, "prose of %s: %r, docstring says %r" % (n, rp.get("doc"), dp["doc"])
+        elif rp.get("doc"):
+            return False, "prose invented for %s: %r" % (n, rp.get("doc"))
+        if n in dict(vs):
+            if "default" not in rp:
+                return False, "value of attribute %s dropped" % n
+            ok, what = _same_default(rp["default"], dict(vs)[n])
+            if not ok:
+                return False, "%s: %s" % (n, what.replace("signature default", "attribute value"))
+        elif "default" in rp and not _is_none_like(rp["default"]):
+            return False, "value invented for %s: %r" % (n, rp["default"])
+        if n in anns and dp.get("typ") is None:
+            a = ann_src.get(n)
+            if rp.get("typ") not in (a, "Optional[%s]" % a):
+                return False, "annotation of %s (%s) reported as %r" % (n, a, rp.get("typ"))
+    return True, ""
+
+
+def class_attrs_hold(case):
+    """C07 for the attributes of one generated class: parse.class_ alone and merged with __init__, against the executed class"""
+    m = impl()
+    tree = ast.parse(case["src"]).body[0]
+    try:
+        cls = next(v for v in _exec(case["src"]).values() if inspect.isclass(v))
+    except Exception as e:  # noqa
+        return None, "definition does not execute: %s" % type(e).__name__
+    try:
+        doc_ir = _doc_reading(ast.get_docstring(tree))
+    except Exception as e:  # noqa
+        return None, "docstring parser raises %s" % type(e).__name__
+    init = fam_parsesig._walk_find(tree, "__init__")
+    init_names = None if init is None else \
+        {x.arg for x in init.args.args + init.args.kwonlyargs} | ({init.args.kwarg.arg} if init.args.kwarg else set())
+    for label, kw, names in (("class", {}, None), ("class merged with __init__", {"merge_inner_function": "__init__"}, init_names)):
+        try:
+            ir = m.parse.class_(copy.deepcopy(tree), **kw)
+        except Exception as e:  # noqa
+            if names is not None:      # the merge itself is judged by the points of kind "class"
+                continue
+            return False, "parse.class_ raises %s" % type(e).__name__
+        ok, what = check_class_attrs(tree, cls, ir["params"], (doc_ir or {}).get("params"), names)
+        if not ok:
+            return False, "%s: %s" % (label, what)
+    return True, ""
+
+
 def impl_holds(case):
     """evaluate C07 at one generated definition on the real code -> (holds, what)"""
+    if case["kind"] == "classattrs":
+        return class_attrs_hold(case)
     m = impl()
     src = case["src"]
     tree = ast.parse(src).body[0]
